@@ -149,4 +149,228 @@ theorem monthLoop_spec (doy : Int) (h0 : 0 ≤ doy) (h1 : doy ≤ 365) :
   rcases hc with h|h|h|h|h|h|h|h|h|h|h|h
   all_goals (repeat (first | rw [if_pos (by omega)] | rw [if_neg (by omega)]))
   all_goals (refine ⟨_, _, rfl, ?_, ?_, ?_, ?_⟩ <;> (try simp only [marchCum, marchLen]) <;> omega)
+/-! ### `from_instant` meets the specification -/
+
+theorem tryFrom_ok (max : Nat) (x : Int) (h0 : 0 ≤ x) (h1 : x ≤ max) : tryFrom max x = .ok x.toNat := by
+  unfold tryFrom; simp [h0, h1]
+
+theorem leapCount_mono (a b : Int) (h : a ≤ b) :
+    a / 4 - a / 100 + a / 400 ≤ b / 4 - b / 100 + b / 400 := by
+  have ha : a / 100 = a / 4 / 25 := by omega
+  have hb : b / 100 = b / 4 / 25 := by omega
+  have ha4 : a / 400 = a / 100 / 4 := by omega
+  have hb4 : b / 400 = b / 100 / 4 := by omega
+  have h1 : a / 4 ≤ b / 4 := by omega
+  have h2 : a / 4 - a / 4 / 25 ≤ b / 4 - b / 4 / 25 := by omega
+  have h3 : a / 100 ≤ b / 100 := by omega
+  have h4 : a / 100 / 4 ≤ b / 100 / 4 := by omega
+  omega
+
+theorem dby_succ (y : Int) : daysBeforeYear (y + 1) = daysBeforeYear y + 365 + leapI y := by
+  unfold daysBeforeYear
+  have e : y + 1 - 1 = y := by omega
+  rw [e]
+  have h4 : y / 4 = (y - 1) / 4 + (if y % 4 = 0 then 1 else 0) := by split <;> omega
+  have h100 : y / 100 = (y - 1) / 100 + (if y % 100 = 0 then 1 else 0) := by split <;> omega
+  have h400 : y / 400 = (y - 1) / 400 + (if y % 400 = 0 then 1 else 0) := by split <;> omega
+  rw [h4, h100, h400]
+  rcases leapI_cases y with ⟨hl, h⟩ | ⟨hl, h⟩ <;> rw [h] <;> unfold LeapP at hl <;>
+    (repeat' split) <;> omega
+
+theorem march_dby (y : Int) :
+    365 * (y - 2000) + (y - 2000) / 4 - (y - 2000) / 100 + (y - 2000) / 400
+      = daysBeforeYear y + 59 + leapI y - 730179 := by
+  have h := dby_succ y
+  unfold daysBeforeYear at *
+  have e : y + 1 - 1 = y := by omega
+  rw [e] at h
+  have h4 : (y - 2000) / 4 = y / 4 - 500 := by omega
+  have h100 : (y - 2000) / 100 = y / 100 - 20 := by omega
+  have h400 : (y - 2000) / 400 = y / 400 - 5 := by omega
+  rw [h4, h100, h400]
+  omega
+
+theorem fromInstant_finish (t Y : Int) (mo : Nat) (r rem : Int) (hY : 1 ≤ Y ∧ Y ≤ 4294967295)
+    (hmo : 1 ≤ mo ∧ mo ≤ 12) (hr : 0 ≤ r ∧ r + 1 ≤ monthLen (leapI Y) mo) (hrem : 0 ≤ rem ∧ rem < 86400)
+    (hsecs : 86400 * (daysBeforeYear Y + daysBeforeMonth (leapI Y) mo + r - 719162) + rem = t) :
+    ∃ dt,
+      (match tryFrom 4294967295 Y, tryFrom 255 (mo : Int), tryFrom 255 (r + 1), tryFrom 255 (rem / 3600),
+            tryFrom 255 (rem / 60 % 60), tryFrom 255 (rem % 60) with
+          | Except.ok y, Except.ok mo, Except.ok d, Except.ok h, Except.ok mi, Except.ok s =>
+            Except.ok { year := y, month := mo, day := d, hour := h, minute := mi, second := s }
+          | _, _, _, _, _, _ => Except.error Err.panic) = Except.ok dt ∧
+        Valid dt ∧ specSecs dt = t := by
+  have hml : monthLen (leapI Y) mo ≤ 31 := by
+    rcases leapI_cases Y with ⟨_, h⟩ | ⟨_, h⟩ <;> rw [h] <;> unfold monthLen <;> split <;> omega
+  rw [tryFrom_ok _ Y (by omega) (by omega), tryFrom_ok _ (mo : Int) (by omega) (by omega),
+    tryFrom_ok _ (r + 1) (by omega) (by omega), tryFrom_ok _ (rem / 3600) (by omega) (by omega),
+    tryFrom_ok _ (rem / 60 % 60) (by omega) (by omega), tryFrom_ok _ (rem % 60) (by omega) (by omega)]
+  refine ⟨_, rfl, ?_, ?_⟩
+  · unfold Valid
+    simp only [U32_MAX, Int.toNat_natCast]
+    have e : ((Y.toNat : Nat) : Int) = Y := Int.toNat_of_nonneg (by omega)
+    rw [e]
+    refine ⟨by omega, by omega, hmo.1, hmo.2, by omega, by omega, by omega, by omega, by omega⟩
+  · unfold specSecs daysFromCivil
+    simp only [Int.toNat_natCast]
+    have e : ((Y.toNat : Nat) : Int) = Y := Int.toNat_of_nonneg (by omega)
+    rw [e]
+    omega
+
+set_option hygiene false in
+/-- one month case of `fromInstant_spec`; `Y` is the calendar year of the case -/
+local macro "fi_case" Y:term : tactic => `(tactic| (
+    simp only [marchCum, marchLen] at hcum hlen
+    simp only [ge_iff_le, Nat.reduceAdd, Nat.reduceLeDiff, Nat.reduceSub, if_true, if_false]
+    apply fromInstant_finish
+    · clear hy1' hS hy1; omega
+    · omega
+    · clear hy1' hS hy1
+      rcases leapI_cases $Y with ⟨hl, h⟩ | ⟨hl, h⟩ <;> rw [h] <;> simp only [monthLen] <;> unfold LeapP at hl <;> omega
+    · exact hrem0
+    · clear hy1 hy3
+      rcases leapI_cases y with ⟨hl, h⟩ | ⟨hl, h⟩ <;> simp only [daysBeforeMonth] <;> omega))
+
+theorem fromInstant_spec (t : Int) (hmin : MIN_SUPPORTED_TIMESTAMP ≤ t) (hmax : t ≤ MAX_SUPPORTED_TIMESTAMP) :
+    ∃ dt, fromInstant t = .ok dt ∧ Valid dt ∧ specSecs dt = t := by
+  unfold fromInstant
+  have hr : ¬ (t < MIN_SUPPORTED_TIMESTAMP ∨ t > MAX_SUPPORTED_TIMESTAMP) := by omega
+  rw [if_neg hr]
+  simp only [MIN_SUPPORTED_TIMESTAMP, MAX_SUPPORTED_TIMESTAMP] at hmin hmax
+  have hs : SHIFT_FROM_UNIX_TIME_TO_MARCH_Y2K = 951868800 := by decide
+  have hd : SECONDS_IN_A_DAY = 86400 := rfl
+  have hh : SECONDS_IN_AN_HOUR = 3600 := rfl
+  have hm : SECONDS_IN_A_MINUTE = 60 := rfl
+  rw [hs, hd, hh, hm]
+  simp only []
+  rw [divModFix_eq _ _ (by decide)]
+  simp only
+  generalize hdays : (t - 951868800) / 86400 = days
+  generalize hrem : (t - 951868800) % 86400 = rem
+  have hrem0 : 0 ≤ rem ∧ rem < 86400 := by omega
+  have ht : t = 951868800 + 86400 * days + rem := by omega
+  clear hdays hrem
+  obtain ⟨y, doy, e1, hy1, hy2, hy3⟩ := marchYear_spec days
+  rw [e1]; simp only
+  have hyU : y ≤ 4294967294 ∨ (y = 4294967295 ∧ doy ≤ 305) := by
+    by_cases hb : y ≤ 4294967294
+    · left; exact hb
+    · right
+      have := leapCount_mono 4294965295 (y - 2000) (by omega)
+      omega
+  have hyL : 1 ≤ y ∨ (y = 0 ∧ 306 ≤ doy) := by
+    by_cases hb : 1 ≤ y
+    · left; exact hb
+    · right
+      have := leapCount_mono (y - 2000) (-2000) (by omega)
+      omega
+  have hy1' := hy1
+  rw [march_dby] at hy1'
+  have hS := dby_succ y
+  obtain ⟨m, r, e2, hm1, hr0, hcum, hlen⟩ := monthLoop_spec doy hy2 (by omega)
+  rw [e2]; simp only
+  simp only [Int.tdiv_eq_ediv_of_nonneg hrem0.1, Int.tmod_eq_emod_of_nonneg hrem0.1,
+    Int.tmod_eq_emod_of_nonneg (show 0 ≤ rem / 60 by omega)]
+  have hcases : m = 0 ∨ m = 1 ∨ m = 2 ∨ m = 3 ∨ m = 4 ∨ m = 5 ∨ m = 6 ∨ m = 7 ∨ m = 8 ∨ m = 9 ∨ m = 10 ∨ m = 11 := by omega
+  simp only [U32_MAX]
+  rcases hcases with rfl | rfl | rfl | rfl | rfl | rfl | rfl | rfl | rfl | rfl | rfl | rfl
+  iterate 10 fi_case y
+  all_goals fi_case (y + 1)
+/-! ### `to_instant` meets the specification -/
+
+theorem isLeapYear_iff (y : Nat) : isLeapYear y = true ↔ LeapP (y : Int) := by
+  unfold isLeapYear LeapP
+  simp only [Bool.and_eq_true, Bool.or_eq_true, beq_iff_eq, Bool.not_eq_true', beq_eq_false_iff_ne, ne_eq]
+  omega
+
+def bI (b : Bool) : Int := if b then 1 else 0
+
+theorem leapI_eq (y : Nat) : leapI (y : Int) = bI (isLeapYear y) := by
+  unfold leapI bI
+  by_cases h : LeapP (y : Int)
+  · rw [if_pos h, (isLeapYear_iff y).2 h]; rfl
+  · have : isLeapYear y = false := by
+      cases hh : isLeapYear y
+      · rfl
+      · exact absurd ((isLeapYear_iff y).1 hh) h
+    rw [if_neg h, this]; rfl
+
+theorem endedMonths_eq (leap : Bool) (mo : Nat) (h1 : 1 ≤ mo) (h2 : mo ≤ 12) :
+    endedMonthsLoop leap (mo - 1) 255 0 0 = some (86400 * daysBeforeMonth (bI leap) mo) := by
+  have hmc : mo = 1 ∨ mo = 2 ∨ mo = 3 ∨ mo = 4 ∨ mo = 5 ∨ mo = 6 ∨ mo = 7 ∨ mo = 8 ∨ mo = 9 ∨ mo = 10 ∨ mo = 11 ∨ mo = 12 := by omega
+  rcases hmc with rfl | rfl | rfl | rfl | rfl | rfl | rfl | rfl | rfl | rfl | rfl | rfl <;>
+    cases leap <;> decide
+
+theorem nonStarted_eq (leap : Bool) (mo : Nat) (h1 : 1 ≤ mo) (h2 : mo ≤ 12) :
+    nonStartedLoop leap (mo - 1) 12 11 0 =
+      some (mo - 1, 86400 * (365 + bI leap - daysBeforeMonth (bI leap) mo - monthLen (bI leap) mo)) := by
+  have hmc : mo = 1 ∨ mo = 2 ∨ mo = 3 ∨ mo = 4 ∨ mo = 5 ∨ mo = 6 ∨ mo = 7 ∨ mo = 8 ∨ mo = 9 ∨ mo = 10 ∨ mo = 11 ∨ mo = 12 := by omega
+  rcases hmc with rfl | rfl | rfl | rfl | rfl | rfl | rfl | rfl | rfl | rfl | rfl | rfl <;>
+    cases leap <;> decide
+
+theorem dimTable_eq (leap : Bool) (mo : Nat) (h1 : 1 ≤ mo) (h2 : mo ≤ 12) :
+    ∃ d₀ : Nat, LEAP_YEAR_DAYS_IN_MONTHS[mo - 1]? = some d₀ ∧
+      (if (!leap && (mo - 1 == 1)) = true then (d₀ : Int) - 1 else (d₀ : Int)) = monthLen (bI leap) mo := by
+  have hmc : mo = 1 ∨ mo = 2 ∨ mo = 3 ∨ mo = 4 ∨ mo = 5 ∨ mo = 6 ∨ mo = 7 ∨ mo = 8 ∨ mo = 9 ∨ mo = 10 ∨ mo = 11 ∨ mo = 12 := by omega
+  rcases hmc with rfl | rfl | rfl | rfl | rfl | rfl | rfl | rfl | rfl | rfl | rfl | rfl <;>
+    cases leap <;> exact ⟨_, rfl, by decide⟩
+
+theorem numLeap_eq (y : Nat) (h : 1 ≤ y) :
+    numLeapYearsUpToExclusive y = some ((y - 1) / 4 - (y - 1) / 100 + (y - 1) / 400) := by
+  unfold numLeapYearsUpToExclusive
+  rw [if_neg (by omega)]
+
+theorem toInstant_spec (dt : DT) (hv : Valid dt) : toInstant dt = .ok (specSecs dt) := by
+  obtain ⟨y, mo, d, h, mi, s⟩ := dt
+  unfold Valid at hv
+  simp only [U32_MAX] at hv
+  obtain ⟨hy1, hy2, hm1, hm2, hd1, hd2, hh, hmi, hs⟩ := hv
+  unfold toInstant
+  have e70 : numLeapYearsUpToExclusive UNIX_EPOCH_YEAR = some 477 := by decide
+  have e71 : numLeapYearsUpToExclusive (UNIX_EPOCH_YEAR + 1) = some 477 := by decide
+  have eE : UNIX_EPOCH_YEAR = 1970 := rfl
+  simp only [e70, e71, numLeap_eq y hy1, numLeap_eq (y + 1) (by omega), endedMonths_eq _ mo hm1 hm2,
+    nonStarted_eq _ mo hm1 hm2]
+  rw [eE]
+  obtain ⟨d₀, ed, hdim⟩ := dimTable_eq (isLeapYear y) mo hm1 hm2
+  rw [leapI_eq] at hd2
+  unfold specSecs daysFromCivil
+  simp only
+  rw [leapI_eq]
+  have c1 : SECONDS_IN_A_NON_LEAP_YEAR = 31536000 := by decide
+  have c2 : SECONDS_IN_A_LEAP_YEAR = 31622400 := by decide
+  have c3 : SECONDS_IN_A_DAY = 86400 := rfl
+  have c4 : SECONDS_IN_AN_HOUR = 3600 := rfl
+  have c5 : SECONDS_IN_A_MINUTE = 60 := rfl
+  rw [c1, c2, c3, c4, c5]
+  unfold daysBeforeYear
+  split
+  · next hge =>
+    have hnl : ¬ ((y - 1) / 4 - (y - 1) / 100 + (y - 1) / 400 < 477) := by
+      have := leapCount_mono 1969 ((y : Int) - 1) (by omega)
+      omega
+    rw [if_neg hnl, if_neg (by omega), if_neg (by omega)]
+    refine congrArg Except.ok ?_
+    generalize daysBeforeMonth (bI (isLeapYear y)) mo = dbm
+    omega
+  · next hlt =>
+    have hnl : ¬ (477 < (y + 1 - 1) / 4 - (y + 1 - 1) / 100 + (y + 1 - 1) / 400) := by
+      have := leapCount_mono (y : Int) 1969 (by omega)
+      omega
+    rw [if_neg hnl, if_neg (by omega), ed]
+    simp only
+    rw [if_neg (by omega), hdim]
+    refine congrArg Except.ok ?_
+    have hb : bI (isLeapYear y) = (y : Int) / 4 - ((y : Int) - 1) / 4 - ((y : Int) / 100 - ((y : Int) - 1) / 100)
+        + ((y : Int) / 400 - ((y : Int) - 1) / 400) := by
+      have h1 := dby_succ (y : Int)
+      rw [leapI_eq] at h1
+      unfold daysBeforeYear at h1
+      have e : (y : Int) + 1 - 1 = y := by omega
+      rw [e] at h1
+      omega
+    generalize daysBeforeMonth (bI (isLeapYear y)) mo = dbm
+    generalize monthLen (bI (isLeapYear y)) mo = ml
+    generalize bI (isLeapYear y) = L at hb ⊢
+    omega
 end Radix.Utc
